@@ -264,3 +264,8 @@ impl ResponseCodec for NamespaceData {
         Ok(ns_data)
     }
 }
+
+#[cfg(all(test, lumina_verif))]
+mod verif_native {
+    include!(concat!(env!("LUMINA_VERIF_DIR"), "/native/node/shrex.rs"));
+}
